@@ -1468,6 +1468,22 @@ def q_sink(cfg):
         res.ob(okq, {'rule': 'Q-16b', 'function': 'qsbr_per_thread::quiescent', 'fact': 'a newly observed epoch resets quiescent_states_since_epoch_change to 0', 'verdict': 'discharged' if okq else 'VIOLATION'})
         if not okq:
             res.find(f, f.loc, 'qsbr_per_thread::quiescent does not reset quiescent_states_since_epoch_change to 0 on the path on which it records a newly observed epoch (in this build configuration): the counter is the "have I already left the previous epoch?" flag, so a thread that has passed a quiescent state before never leaves the previous epoch again - the epoch stops advancing and no deferred deallocation is executed any more', key='Q-16b:quiescent-reset', config=cfg.name)
+    # ---- Q-16c: a thread that ends while registered leaves QSBR: ~qsbr_per_thread calls qsbr_pause() on the not-paused path, in
+    # every configuration (the call sits in the two arms of an #ifdef)
+    for f in cfg.functions:
+        if not f.blocks or f.cls != PT or not f.d.get('dtor'):
+            continue
+        res.count('registration sites')
+        res.functions.add(f.sig)
+        pauses = [(b, i, e) for b, i, e in f.elements() if e.get('k') == 'call' and e.get('name') == 'qsbr_pause' and not is_assert_elem(e)]
+        okp = False
+        for b, i, e in pauses:
+            for c, val, cb in control_conditions(f, b):
+                if isinstance(c, dict) and c.get('k') == 'call' and c.get('name') == 'is_qsbr_paused' and val is False:
+                    okp = True
+        res.ob(okp, {'rule': 'Q-16c', 'function': '~qsbr_per_thread', 'fact': 'calls qsbr_pause() when the thread is not paused', 'verdict': 'discharged' if okp else 'VIOLATION'})
+        if not okp:
+            res.find(f, f.loc, '~qsbr_per_thread does not call qsbr_pause() on the path on which the thread is still registered (in this build configuration): a thread that ends keeps its registration and drops its pending requests - the nodes it retired are never freed, and because the dead thread never quiesces the epoch can never advance again, so nothing any other thread retires is freed either', key='Q-16c:dtor-unregisters', config=cfg.name)
     # ---- Q-16
     ctor = [f for f in cfg.functions if f.blocks and f.cls == PT and f.d.get('ctor') and not f.params]
     resume = fn(cfg, PT, 'qsbr_resume')
